@@ -5,7 +5,7 @@ use crate::request_reply::{Replier, Requestor};
 use crate::traits::KeepAliveStream;
 use futures::Future;
 use selium_std::errors::QuicError;
-use selium_std::errors::Result;
+use selium_std::errors::{Result, SeliumError};
 use selium_std::traits::codec::{MessageDecoder, MessageEncoder};
 use std::fmt::Debug;
 
@@ -89,12 +89,14 @@ where
     ResItem: Unpin + Send + Clone,
 {
     pub async fn request(&mut self, req: ReqItem) -> Result<ResItem> {
-        let mut attempts = self.backoff_strategy.clone().into_iter();
-
         loop {
             match self.stream.request(req.clone()).await {
                 Ok(res) => return Ok(res),
-                Err(err) if is_recoverable_error(&err) => self.try_reconnect(&mut attempts).await?,
+                Err(err) if is_recoverable_error(&err) => {
+                    // Every outage gets the full retry budget
+                    let mut attempts = self.backoff_strategy.clone().into_iter();
+                    self.try_reconnect(&mut attempts).await?
+                }
                 Err(err) => {
                     logging::keep_alive::unrecoverable_error(&err);
                     return Err(err);
@@ -123,8 +125,14 @@ where
                     logging::keep_alive::unrecoverable_error(&err);
                     return Err(err);
                 }
-                _ => self.try_reconnect(&mut attempts).await?,
+                // The server refused the re-registration after all (e.g. another replier is
+                // bound): a failed attempt of the current outage, not a new outage.
+                Err(SeliumError::OpenStream(..)) => (),
+                // An established stream was lost: a new outage, with the full retry budget.
+                _ => attempts = self.backoff_strategy.clone().into_iter(),
             };
+
+            self.try_reconnect(&mut attempts).await?;
         }
     }
 }
